@@ -4,7 +4,10 @@
 (*  call : {layout, level, kind, failing, result, responses, required,        *)
 (*          local: the issuer's storage holds the mutation,                   *)
 (*          others: the other nodes whose storage holds it (or a newer one)   *)
-(*          right after the call returned}                                    *)
+(*          right after the call returned,                                    *)
+(*          slow: replicas that answer late - a call may wait for them or     *)
+(*          report a failure, but "ok" still means the promised number hold   *)
+(*          the mutation}                                                     *)
 (*  later: a write that failed its level is replicated everywhere afterwards  *)
 EXTENDS Selector, TLC, Json, IOUtils
 
@@ -19,6 +22,7 @@ Call(e) ==
   LET lay == Lay(e.layout)
       have == NodeSet(e.others)
       failing == NodeSet(e.failing)
+      slow == NodeSet(e.slow)          \* replicas whose storage answers late (longer than the advertised timeout), but does answer
   IN /\ have \subseteq Others(lay) \ failing
      /\ CASE e.result = "ok" ->
                /\ e.local
@@ -28,11 +32,11 @@ Call(e) ==
                /\ e.responses < e.required                    \* it says how many acknowledged, fewer than selected
                /\ Cardinality(have) >= e.responses            \* and an acknowledgement means applied
                /\ e.required >= Required(lay, e.level)
-               /\ failing # {}                                \* somebody really did not acknowledge
+               /\ failing \cup slow # {}                      \* somebody really did not acknowledge (in time)
           [] e.result = "notenough" -> AllowedErr(lay, e.level)
           [] OTHER -> FALSE
      \* with nobody refusing, a satisfiable level succeeds
-     /\ (failing = {} /\ ~AllowedErr(lay, e.level)) => e.result = "ok"
+     /\ (failing = {} /\ slow = {} /\ ~AllowedErr(lay, e.level)) => e.result = "ok"
 
 Ok(e) == IF e.ev = "call" THEN Call(e) ELSE e.replicated_everywhere
 
